@@ -109,8 +109,9 @@ func NewConn(ctx context.Context, conn net.Conn, options ...Option) (outConn *Co
 		outConn.readBuf, err = outConn.inner.Marshal()
 	} else {
 		outConn.readBuf, err = outConn.outer.Marshal()
-		if len(raw) != len(record) {
-			// The hello is passed through. Keep the records as the client framed them.
+		if len(raw) != len(record) || len(raw) != len(outConn.readBuf) {
+			// The hello is passed through. Keep the records as the client
+			// framed them, and anything else they carry after the hello.
 			outConn.readBuf = raw
 		}
 	}
